@@ -20,6 +20,10 @@ which helpers of the analysed class are called.
              at most as far from the preferred power as the other edge.
   C04.NOOP   a proposal with neither power nor bounds leaves the target unchanged and changes the
              running bounds only by the (idempotent) zone carving.
+  C04.RESULT calculate_target_power, for a group that has a bucket and system bounds, always sweeps the
+             proposals - whatever earlier calls left in the instance (every attribute other than the
+             buckets and the remembered target is in an arbitrary state) - and returns the fresh
+             target unless it equals the remembered one and the caller does not insist.
   C04.STORE  whatever its shape (power / lower / upper bound present or not), the proposal handed to
              calculate_target_power is a member of the bucket _calc_target_power is called with.
   C04.REPORT _Report.adjust_to_bounds returns what clamp_to_bounds returns for the report's own
@@ -38,7 +42,7 @@ from ..engine.report import AnalysisError, Run
 from ..engine.resolver import Program, walk_no_nested
 from ..engine.terms import Poly
 from ._c04_util import (
-    STOPPED, NotReached, mk_system, with_op, LinInterp, StoreInterp, Sweep, compare_pairs, flip_strict, mirror, reach, splice, step_function, sweep_roles,
+    STOPPED, NotReached, instance_state, mk_system, with_op, LinInterp, StoreInterp, Sweep, compare_pairs, flip_strict, mirror, reach, splice, step_function, sweep_roles,
     synth,
 )
 from .c03 import BASE, BOUNDS, MAT, _report_orderings, check_quantity_truthiness, mk_excl, mk_proposal
@@ -605,14 +609,28 @@ def check_store(run: Run, prog: Program) -> None:
             buckets["ids"] = it.keyset([other])
         stored = Atom("OLD_TARGET") if it.choose(2, "a target is remembered") == 1 else None
         must = it.choose(2, "must_return_power") == 1
-        so = Obj(ct.cls.name, _component_buckets=buckets,  # type: ignore[union-attr]
-                 _target_power={"ids": stored} if stored is not None else {})
+        # every attribute of the instance other than the buckets and the remembered target is in an
+        # arbitrary state: whatever earlier calls may have left there must not decide anything
+        so = instance_state(prog, ct.cls, _component_buckets=buckets,
+                            _target_power={"ids": stored} if stored is not None else {})
         ctx.update(p=p, so=so, stored=stored, must=must)
         return dict(zip(ct.params, (so, "ids", p, sysb, must)))
 
     def post(res: Any) -> Any:
         p = ctx["p"]
         out: dict[str, Any] = {"store": None, "result": None}
+        if not it.visits:
+            ret = it.last_return
+            where = f"`{ast.unparse(ret)}` (line {ret.lineno})" if ret is not None else "the end of the function"
+            state = ", ".join(f"self.{n}" for n in it.state_reads)
+            out["result"] = ("bad", [
+                f"the group has a bucket of proposals and system bounds, but the call leaves through {where} "
+                "without sweeping the proposals" + (f", on a path decided by remembered state ({state})" if state else "")
+                + ": the target is not recomputed.  Any 'nothing changed since last time' short-cut keyed on "
+                "this call's inputs (bounds, proposal, remembered target) misses changes made elsewhere - expiry in "
+                "drop_old_proposals, another actor's proposal - so the effective target keeps honouring "
+                "proposals that no longer exist while get_status sweeps the live bucket"])
+            return out
         if len(it.visits) != 1:
             out["store"] = ("bad", [f"the proposals are swept {len(it.visits)} time(s) in one call"])
             return out
@@ -890,6 +908,19 @@ def structural_controls(prog: Program) -> list[tuple[str, str, str, str, str]]: 
                         edits.append((c, t))
     add("new target returned only when unchanged", MAT, edits, "C04.RESULT")
 
+    # 12. a "nothing changed" short-cut on the re-evaluation path (no new proposal, caller does not insist,
+    # a target is remembered): the sweep is skipped although the bucket may have changed elsewhere
+    edits = []
+    body = [st for st in ct.node.body if not (isinstance(st, ast.Expr) and isinstance(st.value, ast.Constant))]
+    if body:
+        first = body[0]
+        seg = ast.get_source_segment(mat_src, first)
+        me, ids, prop, _sysb, must = ct.params
+        if seg:
+            edits.append((first, f"if {prop} is None and not {must} and {me}._target_power.get({ids}) is not None:\n"
+                                 f"{' ' * (first.col_offset + 4)}return None\n{' ' * first.col_offset}{seg}"))
+    add("re-evaluation skipped when a target is remembered", MAT, edits, "C04.RESULT")
+
     # 11. the target sweep runs from the lowest to the highest priority
     edits = []
     for n in (n for st in list(swc.pro) + [swc.loop.iter] for n in ast.walk(st)):
@@ -962,7 +993,9 @@ def check(run: Run, prog: Program, tier: str) -> str:
                 "C04.STORE": lambda r, p: check_store(r, p), "C04.RESULT": lambda r, p: check_store(r, p),
                 "C04.DESC": lambda r, p: check_order(r, p)}[expect]
 
-    run_controls(run, structural_controls(prog), run_rules, tier, base_prog=prog, select=select)
+    # on a violating tree the controls are skipped by the engine; do not even try to locate their sites
+    controls = [] if run.violations else structural_controls(prog)
+    run_controls(run, controls, run_rules, tier, base_prog=prog, select=select)
     run.undecided("optimality over conflicting proposal sets (outside the quantifier); end-to-end "
                   "'lowest-priority preference wins' follows from the sweep overwriting the target "
                   "in descending priority order, which is the loop structure checked under C03.ORD")
